@@ -285,6 +285,26 @@ int64_t cmb_priorityqueue_put(struct cmb_priorityqueue *pqp,
     }
 }
 
+/*
+ * cmb_priorityqueue_cancel - Take the object with the given handle out of the
+ * queue. The queue gets shorter, which is recorded, and any process waiting to
+ * put an object into a full queue gets its chance.
+ */
+bool cmb_priorityqueue_cancel(struct cmb_priorityqueue *pqp,
+                              const uint64_t handle)
+{
+    cmb_assert_release(pqp != NULL);
+
+    struct cmi_hashheap *hp = &(pqp->queue);
+    const bool found = cmi_hashheap_remove(hp, handle);
+    if (found) {
+        record_sample(pqp);
+        cmb_resourceguard_signal(&(pqp->rear_guard));
+    }
+
+    return found;
+}
+
 uint64_t cmb_priorityqueue_position(const struct cmb_priorityqueue *pqp,
                                     const uint64_t handle)
 {
